@@ -647,26 +647,34 @@ Proof.
   - eapply act_Print; eauto.
 Qed.
 
-(* ------------------------------------------------------------------ preservation and absence of errors, one step *)
+(* ------------------------------------------------------------------ preservation and absence of errors, one step
+   for the two polarized modes: Async (one-place buffers) and Sync (rendezvous) *)
 (* the part of `Topo` that typing cannot give: nobody sends on or listens to a closed channel *)
 Definition closed_unused (md : exec_mode) (c : config) : Prop :=
   forall self p k st, procs c !! self = Some p ->
     (action_of md D p = ARecv k \/ exists m, action_of md D p = ASend k m) ->
     chans c !! k = Some st -> ch_closed st = false.
 
-Lemma put_none_procs c k st : procs (put_msg c k st None) = procs c.
-Proof. reflexivity. Qed.
+Lemma action_of_polarized md p : is_np md = false -> action_of md D p = action_of Async D p.
+Proof. intros H. unfold action_of. destruct (pr_body0 p); auto. rewrite H. reflexivity. Qed.
 
-(* one step of one process: the three possible outcomes under typing *)
-Lemma step_run_typed Δ c self :
-  cfg_typed Δ c -> closed_unused Async c ->
-  step Async D F c (Run self) = SNotEnabled \/
-  exists c' Δ', step Async D F c (Run self) = SStep c' /\ Δ ⊆ Δ' /\ cfg_typed Δ' c'.
+Lemma internal_effect_polarized md self p : is_np md = false ->
+  internal_effect md F self p = internal_effect Async F self p.
+Proof. intros H. unfold internal_effect. destruct (pr_body0 p); auto. rewrite H. reflexivity. Qed.
+
+Lemma typed_action_md md Δ p : is_np md = false -> proc_typed Δ p -> act_view Δ p (action_of md D p).
+Proof. intros H Hp. rewrite action_of_polarized by auto. apply typed_action; auto. Qed.
+
+(* one step of one process: the possible outcomes under typing *)
+Lemma step_run_typed md Δ c self :
+  is_np md = false -> cfg_typed Δ c -> closed_unused md c ->
+  step md D F c (Run self) = SNotEnabled \/
+  exists c' Δ', step md D F c (Run self) = SStep c' /\ Δ ⊆ Δ' /\ cfg_typed Δ' c'.
 Proof.
-  intros Hc Hcl. pose proof Hc as [Hp Hm Hd Hf]. simpl.
+  intros Hnp Hc Hcl. pose proof Hc as [Hp Hm Hd Hf]. simpl.
   destruct (procs c !! self) as [p|] eqn:Ep; [|left; reflexivity].
-  pose proof (typed_action Δ p (Hp _ _ Ep)) as Hv.
-  remember (action_of Async D p) as a eqn:Ea. symmetry in Ea.
+  pose proof (typed_action_md md Δ p Hnp (Hp _ _ Ep)) as Hv.
+  remember (action_of md D p) as a eqn:Ea. symmetry in Ea.
   destruct Hv as [k m Hmsg Hside|k Hk Hside Hrecv|Hint].
   2: { (* receive *)
     destruct (Hd k Hk) as [st Hst]. rewrite Hst.
@@ -679,51 +687,92 @@ Proof.
   2: { (* internal *)
     destruct (Hint self) as [e [Δ' [He Heff]]].
     { apply (Hf self p (pr_next p) [] Ep). lia. }
-    right. rewrite He. simpl. exists (apply_effect c self p e), Δ'. split; auto.
+    right. rewrite internal_effect_polarized by auto. rewrite He. simpl.
+    exists (apply_effect c self p e), Δ'. split; auto.
     split; [destruct Heff as [p' [_ [Hsub _]]]; exact Hsub|].
     eapply apply_effect_typed; eauto. }
   - (* send *)
     destruct Hmsg as [T [HT Hmsg']].
     destruct (Hd k) as [st Hst]; [eauto|]. rewrite Hst.
     rewrite (Hcl self p k st Ep (or_intror (ex_intro _ m Ea)) Hst).
+    destruct md; try (left; reflexivity).
     destruct (ch_buf st) eqn:Eb; [left; reflexivity|].
     right. eexists. exists Δ. split; [reflexivity|]. split; [reflexivity|].
     eapply send_typed_cfg; eauto. exists T. auto.
 Qed.
 
-Theorem preservation Δ c self c' :
-  cfg_typed Δ c -> closed_unused Async c -> step Async D F c (Run self) = SStep c' ->
-  exists Δ', Δ ⊆ Δ' /\ cfg_typed Δ' c'.
+(* a sender and a receiver meet (synchronous mode) *)
+Lemma step_rendezvous_typed md Δ c s r :
+  is_np md = false -> cfg_typed Δ c ->
+  step md D F c (Rendezvous s r) = SNotEnabled \/
+  exists c', step md D F c (Rendezvous s r) = SStep c' /\ cfg_typed Δ c'.
 Proof.
-  intros Hc Hcl Hs. destruct (step_run_typed Δ c self Hc Hcl) as [H|[c2 [Δ' [H [H1 H2]]]]]; rewrite H in Hs.
-  - discriminate.
-  - injection Hs as <-. eauto.
+  intros Hnp Hc. pose proof Hc as [Hp Hm Hd Hf].
+  destruct md; [left; reflexivity| |discriminate]. simpl.
+  destruct (bool_decide (s = r)) eqn:Esr; [left; reflexivity|]. apply bool_decide_eq_false in Esr.
+  destruct (procs c !! s) as [ps|] eqn:Eps; [|left; reflexivity].
+  destruct (procs c !! r) as [pr|] eqn:Epr; [|left; reflexivity].
+  pose proof (typed_action_md Sync Δ ps eq_refl (Hp _ _ Eps)) as Hvs.
+  pose proof (typed_action_md Sync Δ pr eq_refl (Hp _ _ Epr)) as Hvr.
+  destruct Hvs as [k m Hmsg _|k Hk _ _|_]; try (left; reflexivity).
+  destruct Hvr as [k' m' _ _|k' Hk' _ Hrecv|_]; try (left; reflexivity).
+  destruct (bool_decide (k = k')) eqn:Ek; [|left; reflexivity]. apply bool_decide_eq_true in Ek. subst k'.
+  destruct (chans c !! k) as [st|]; [|left; reflexivity].
+  destruct (ch_closed st); [left; reflexivity|].
+  destruct (Hrecv r m Hmsg) as [e [He Heff]].
+  right. rewrite He. simpl. eexists. split; [reflexivity|].
+  eapply apply_effect_typed; eauto.
+  - apply del_proc_typed. exact Hc.
+  - unfold del_proc. simpl. rewrite lookup_delete_ne by auto. exact Epr.
 Qed.
 
-Lemma step_async_run c ch : (forall self, ch <> Run self) -> step Async D F c ch = SNotEnabled.
-Proof. intros H. destruct ch as [self|s r|f t]; simpl; auto. exfalso. eapply H; eauto. Qed.
+Lemma step_control_polarized md c f t : is_np md = false -> step md D F c (Control f t) = SNotEnabled.
+Proof. intros H. simpl. rewrite H. reflexivity. Qed.
+
+Theorem preservation_md md Δ c ch c' :
+  is_np md = false -> cfg_typed Δ c -> closed_unused md c -> step md D F c ch = SStep c' ->
+  exists Δ', Δ ⊆ Δ' /\ cfg_typed Δ' c'.
+Proof.
+  intros Hnp Hc Hcl Hs. destruct ch as [self|s r|f t].
+  - destruct (step_run_typed md Δ c self Hnp Hc Hcl) as [H|[c2 [Δ' [H [H1 H2]]]]]; rewrite H in Hs.
+    + discriminate.
+    + injection Hs as <-. eauto.
+  - destruct (step_rendezvous_typed md Δ c s r Hnp Hc) as [H|[c2 [H H2]]]; rewrite H in Hs.
+    + discriminate.
+    + injection Hs as <-. exists Δ. split; auto.
+  - rewrite step_control_polarized in Hs by auto. discriminate.
+Qed.
 
 (* no run-time error of any kind: message kind / label / shape, call instantiation, unknown
    channels (typing), closed channels (`closed_unused`) *)
+Theorem no_error_md md Δ c ch who e :
+  is_np md = false -> cfg_typed Δ c -> closed_unused md c -> step md D F c ch <> SError who e.
+Proof.
+  intros Hnp Hc Hcl. destruct ch as [self|s r|f t].
+  - destruct (step_run_typed md Δ c self Hnp Hc Hcl) as [H|[c2 [Δ' [H _]]]]; rewrite H; discriminate.
+  - destruct (step_rendezvous_typed md Δ c s r Hnp Hc) as [H|[c2 [H _]]]; rewrite H; discriminate.
+  - rewrite step_control_polarized by auto. discriminate.
+Qed.
+
+(* the asynchronous instances, as the property is usually quoted *)
+Theorem preservation Δ c self c' :
+  cfg_typed Δ c -> closed_unused Async c -> step Async D F c (Run self) = SStep c' ->
+  exists Δ', Δ ⊆ Δ' /\ cfg_typed Δ' c'.
+Proof. apply preservation_md. reflexivity. Qed.
+
 Theorem no_error_async Δ c ch who e :
   cfg_typed Δ c -> closed_unused Async c -> step Async D F c ch <> SError who e.
-Proof.
-  intros Hc Hcl. destruct ch as [self|s r|f t]; try (rewrite step_async_run by discriminate; discriminate).
-  destruct (step_run_typed Δ c self Hc Hcl) as [H|[c2 [Δ' [H _]]]]; rewrite H; discriminate.
-Qed.
+Proof. apply no_error_md. reflexivity. Qed.
 
 Theorem preservation_any Δ c ch c' :
   cfg_typed Δ c -> closed_unused Async c -> step Async D F c ch = SStep c' ->
   exists Δ', Δ ⊆ Δ' /\ cfg_typed Δ' c'.
-Proof.
-  intros Hc Hcl Hs. destruct ch as [self|s r|f t]; try (rewrite step_async_run in Hs by discriminate; discriminate).
-  eapply preservation; eauto.
-Qed.
+Proof. apply preservation_md. reflexivity. Qed.
 
 (* ------------------------------------------------------------------ whole runs *)
-Inductive reachable (c0 : config) : config -> Prop :=
-| reach_refl : reachable c0 c0
-| reach_step c ch c' : reachable c0 c -> step Async D F c ch = SStep c' -> reachable c0 c'.
+Inductive reachable (md : exec_mode) (c0 : config) : config -> Prop :=
+| reach_refl : reachable md c0 c0
+| reach_step c ch c' : reachable md c0 c -> step md D F c ch = SStep c' -> reachable md c0 c'.
 
 Lemma exec_run_S fuel pick md c :
   exec_run (S fuel) pick md D F c =
@@ -740,19 +789,19 @@ Lemma exec_run_S fuel pick md c :
   end.
 Proof. reflexivity. Qed.
 
-Theorem exec_run_safe fuel pick : forall Δ c,
-  cfg_typed Δ c -> (forall c', reachable c c' -> closed_unused Async c') ->
-  forall c' who e, exec_run fuel pick Async D F c <> RError c' who e.
+Theorem exec_run_safe md fuel pick : is_np md = false -> forall Δ c,
+  cfg_typed Δ c -> (forall c', reachable md c c' -> closed_unused md c') ->
+  forall c' who e, exec_run fuel pick md D F c <> RError c' who e.
 Proof.
-  induction fuel as [|fuel IH]; intros Δ c Hc Hcl c' who e; [simpl; discriminate|].
+  intros Hnp. induction fuel as [|fuel IH]; intros Δ c Hc Hcl c' who e; [simpl; discriminate|].
   rewrite exec_run_S.
-  destruct (enabled Async D F c) as [|e0 es]; [discriminate|]. cbv zeta.
+  destruct (enabled md D F c) as [|e0 es]; [discriminate|]. cbv zeta.
   set (ch := nth (pick (S fuel) (S (length es)) mod S (length es)) (e0 :: es) e0).
-  destruct (step Async D F c ch) as [|c2|who' e'] eqn:Es; [discriminate| |].
-  - destruct (preservation_any Δ c ch c2 Hc (Hcl c (reach_refl c)) Es) as [Δ' [_ Hc2]].
+  destruct (step md D F c ch) as [|c2|who' e'] eqn:Es; [discriminate| |].
+  - destruct (preservation_md md Δ c ch c2 Hnp Hc (Hcl c (reach_refl md c)) Es) as [Δ' [_ Hc2]].
     apply (IH Δ' c2 Hc2). intros c3 Hr. apply Hcl.
     clear -Hr Es. induction Hr; [eapply reach_step; [apply reach_refl|eauto] | eapply reach_step; eauto].
-  - exfalso. eapply no_error_async; eauto. apply Hcl. apply reach_refl.
+  - exfalso. eapply no_error_md; eauto. apply Hcl. apply reach_refl.
 Qed.
 
 End RtSafety.
